@@ -25,6 +25,10 @@ func (vt *Model) handleMouse(msg vaxis.Mouse) string {
 		return ""
 	}
 	// Return early if we aren't reporting motion
+	if !vt.mode.mouseButtons && !vt.mode.mouseDrag && !vt.mode.mouseMotion {
+		// SGR mode only selects an encoding, it doesn't turn any report on
+		return ""
+	}
 	if !vt.mode.mouseMotion && msg.EventType == vaxis.EventMotion && msg.Button == vaxis.MouseNoButton {
 		return ""
 	}
